@@ -37,7 +37,14 @@ def build(tier):
     hd = lambda: Fn('state_has_descent', 'src/solver/state.cpp', 'has_descent', flt='solver_state_t::has_', self_struct='struct nv_state',
                     types=TYPES, members=[(r'^dg\|nano::solver_state_t', 'nv_state_dg')])
     get = Fn('lsearchk_get', 'src/lsearchk.cpp', 'get', flt='lsearchk_t::get', **COMMON)
+    mt_calls = [(r'^dcstep\|', 'mt_dcstep'), (r'^stpmax\|', 'nv_stpmax()'),
+                (r'^cubic\|', 'nv_cubic({&0}, {&1})'), (r'^quadratic\|', 'nv_quadratic({&0}, {&1})'), (r'^secant\|', 'nv_secant({&0}, {&1})'),
+                (r'^ctor\|nano::lsearch_step_t\|void \((const )?(double|nano::scalar_t)', 'nv_lstep_make3({0}, {1}, {2})')]
+    mt_common = dict(COMMON, calls=mt_calls + CALLS)
+    dc = Fn('mt_dcstep', 'src/lsearchk/morethuente.cpp', 'dcstep', flt='dcstep', **dict(mt_common, self_struct=None))
+    mt = Fn('morethuente_do_get', 'src/lsearchk/morethuente.cpp', 'do_get', flt='lsearchk_morethuente_t::do_get', **mt_common)
     targets = [
+        Target('morethuente_do_get', [mt, dc, upd()], H, replace=['lsearchk_update']),
         Target('lsearchk_get', [get, upd(), hd()], H, replace=['lsearchk_update', 'lsearchk_do_get']),
         Target('lsearchk_update', [upd()], H),
         Target('state_has_descent', [hd()], H),
@@ -52,6 +59,10 @@ def build(tier):
     svcs, sfns = step_smt.build()
     vcs += svcs
     fns += sfns
+    import adv_smt
+    avcs, afns = adv_smt.build()
+    vcs += avcs
+    fns += afns
     return {
         'targets': targets, 'vcs': vcs, 'functions': fns,
         'decided': ['backtrack / LeMarechal / Fletcher(+zoom): success => advertised predicates were evaluated true on the current trial point with the returned step, and the state is the valid evaluation at x0+t*d; loops terminate (variant max_iterations - i)'],
@@ -68,6 +79,13 @@ def replay(rp):
     do_get) are driven on the real line searches by a scripted function; other targets have no native driver"""
     import replaylib
     out = {'reproduced': False, 'runs': []}
+    if rp['target'] == 'advertised':
+        # More-Thuente / CG_DESCENT report success at give-up exits: concrete runs of the real line searches on f(x) = x^2
+        exe = replaylib.build_with_library('replay/C07_adv_replay.cpp', 'C07_adv_replay')
+        rc, so, se = replaylib.run_driver(exe, [])
+        out['runs'].append({'exit': rc, 'output': so.strip()[:6000]})
+        out['reproduced'] = rc == 1
+        return out
     if rp['target'] != 'lsearchk_get':
         out['note'] = 'no scripted function for this target: the replay file carries the verifier output only'
         return out
